@@ -191,7 +191,7 @@ class Run:
                      "test_timeout": str(cls.get("timeout", cfg.get("test_timeout", 100))),
                      "type": "synthetic", "configure_install": "synthetic_install",
                      "_name_map_file": {"nets.cfg": f"nets.{w['swarm']}.{wid.split('.')[-1]}"}}
-                for k in ("max_tries", "max_concurrent_tries", "rerun_status", "stop_status", "pool_filter", "dry_run"):
+                for k in ("max_tries", "max_concurrent_tries", "rerun_status", "stop_status", "pool_filter", "dry_run", "replay"):
                     v = cls.get(k, cfg.get(k))
                     if v is not None:
                         p[k] = str(v)
@@ -551,8 +551,13 @@ class Run:
         runner.job = types.SimpleNamespace(result=types.SimpleNamespace(tests=[]), config={}, logdir=".",
                                            timeout=None)
         runner.previous_results = list(self.spec.get("previous", []))
-        for r in runner.previous_results:
-            pass
+        # results of a replayed job, given per (class, worker, status): named like the node's own test so that the
+        # `re.search(bridged_form, name)` of traverse_node finds them (the uid of a previous job's result has no retry suffix)
+        for cls, wid, status in self.spec.get("previous_by_class", []):
+            n = getattr(self, "nodes", {}).get((cls, wid))
+            if n is not None:
+                runner.previous_results.append({"name": f"{n.prefix}-{n.params['name']}", "status": status,
+                                                "time_elapsed": 1.0, "time": 1.0})
         self.runner = runner
         self.graph.runner = runner
         params = m.Params(self.spec.get("run_params", {}))
@@ -634,7 +639,7 @@ def spec_lines(run):
             return ",".join(f"{a}:{b}" for a, b in l) or "-"
         lines.append(
             f"node {i} cls={c} owner={owner} name={p['name']} pfx={n.prefix} flags={flags} sets={pl(sets)} "
-            f"gets={pl(gets)} unset={pl(unset)} maxtries={p.get('max_tries', '-')} "
+            f"gets={pl(gets)} unset={pl(unset)} maxtries={p.get('max_tries', '2' if p.get('replay') else '-')} "
             f"mct={(run.spec['cfg'].get('max_concurrent_tries', '-') if getattr(run, 'static_after', False) else p.get('max_concurrent_tries', '-'))} "
             f"timeout={p.get('test_timeout', 3600)} shape={shape_of(p)} scope={','.join(p.get('pool_scope', '').split()) or '-'} "
             f"filter={p.get('pool_filter', 'reuse')} rerun={','.join(p.get_list('rerun_status', [])) or '-'} "
@@ -878,7 +883,7 @@ def gen_spec(rng, profile="mixed"):
         if sts:
             poolspec[loc] = sts
     # schedule: per worker a cyclic list of (duration, status)
-    faulty = profile == "faulty" or rng.random() < 0.3
+    faulty = profile in ("faulty", "replay") or rng.random() < 0.3
     sched = {}
     for w in workers:
         seq = []
@@ -906,7 +911,30 @@ def gen_spec(rng, profile="mixed"):
     spec = {"workers": workers, "vms": vms, "cfg": cfg, "classes": classes, "pool": poolspec, "schedule": sched}
     if profile == "longwait":
         long_wait(rng, spec)
+    if profile == "replay":
+        add_replay(rng, spec)
     return spec
+
+
+def add_replay(rng, spec):
+    """profile "replay": the job replays a previous one (`replay=<job>`): results of that job are attached to the nodes the
+    first time they are traversed, `should_rerun` then defaults to a budget of 2 tries and to rerun_status fail,error,warn.
+    Not in the Lean traversal model (stated gap): such runs are judged by the monitors count, attempt, overlap and uid only."""
+    cfg = spec["cfg"]
+    cfg["replay"] = "prevjob"
+    if rng.random() < 0.7:
+        cfg.pop("max_tries", None)
+    cfg.pop("rerun_status", None)
+    cfg.pop("stop_status", None)
+    cfg.pop("max_concurrent_tries", None)
+    prev = []
+    for c in spec["classes"]:
+        for w in spec["workers"]:
+            if w["id"] in c.get("exclude", []):
+                continue
+            if rng.random() < 0.5:
+                prev.append([c["name"], w["id"], rng.choice(["FAIL", "FAIL", "ERROR", "PASS", "PASS", "WARN"])])
+    spec["previous_by_class"] = prev
 
 
 def long_wait(rng, spec):
